@@ -194,7 +194,7 @@ pub fn run(ctx: &Ctx) -> ! {
     let mut rep = Report::new(
         ctx,
         "model_checking",
-        "(i) every sequence of <= k tokens of the 16-token wire alphabet after a valid header, partitioned by the strict reference decoder R1 into well-formed / not; every well-formed one is executed on IppParser::parse and parse_parts and compared with R1's reading (groups in wire order, attribute in the most recent group, scalar vs ordered set, collections as name->values maps, lossy text); (ii) wire trees generated from the RFC 8010 grammar with free group order (repeated/empty groups, operation not first), mixed sets, multi-valued members, sets of collections, nesting, every tag 0x10-0x4a at boundary lengths, invalid UTF-8 in text and names, encoded by the reference encoder; (iii) every byte of {0x00, 0x0b-0x0f, 0x4b-0xff} substituted at every tag position of every corpus message must be rejected. states = distinct accepted wire messages; transitions = tokens consumed by the reference decoder; non-trivial = accepted message with at least one attribute",
+        "(i) every sequence of <= k tokens of the 16-token wire alphabet after a valid header, partitioned by the strict reference decoder R1 into well-formed / not; every well-formed one is executed on IppParser::parse and parse_parts and compared with R1's reading (groups in wire order, attribute in the most recent group, scalar vs ordered set, collections as name->values maps, lossy text); (ii) wire trees generated from the RFC 8010 grammar with free group order (repeated/empty groups, operation not first), mixed sets, multi-valued members, sets of collections, nesting, every tag 0x10-0x4a at boundary lengths, invalid UTF-8 in text and names, encoded by the reference encoder; (iii) every byte of {0x00, 0x0b-0x0f, 0x4b-0xff} substituted at every tag position of every corpus message must be rejected; (iv) every periodic family header.p.u^n.v^n.end (|p|<=1, |u|<=2, |v|<=1) at n = 40, 130, 300 (1000) repetitions that R1 accepts (nesting <= 128) - hundreds of groups, attributes, members, set elements before the tokens under test; (v) non-initial states: for every word u of 1-2 tokens and n = 130, 300 (40..1000), header.u^n followed by EVERY token sequence of <= 3 tokens as continuation, executed whenever R1 accepts the whole message. states = distinct accepted wire messages; transitions = tokens consumed by the reference decoder; non-trivial = accepted message with at least one attribute",
     );
     rep.assume("reference decoder R1 is the independent reading of RFC 8010");
     rep.assume("bytes 0x06-0x0a at a tag position (IANA-assigned group tags this library does not know) are outside the rejection rule: either answer is accepted");
@@ -311,6 +311,99 @@ pub fn run(ctx: &Ctx) -> ! {
         s.merge(p);
     }
     rep.section("grammar-trees", s);
+
+    // (iv) long periodic messages: state accumulated over many tokens (many groups, many attributes, many
+    // members, long sets, moderate nesting) must not change how later tokens are read
+    let fams: Vec<Periodic> = {
+        let mut f = periodic_families(1, 2, 1, 0);
+        if ctx.tier == Tier::Thorough {
+            f.extend(periodic_families(2, 1, 1, 1).into_iter().filter(|x| x.p.len() == 2 || x.s.len() == 1));
+        }
+        f
+    };
+    let sizes: &[usize] = ctx.tier.pick(&[40, 130, 300][..], &[40, 130, 300, 1000][..]);
+    let parts = vmc::explore::par_slice(ctx.threads, &fams, Stats::new, |st, _, fam| {
+        for &n in sizes {
+            // the family is closed by an end tag
+            let mut bytes = fam.bytes(n);
+            bytes.push(TAG_END);
+            st.evaluations += 1;
+            match r1::decode(&bytes) {
+                Ok(m) => {
+                    // the parser documents a nesting limit of 128 collections (fix 163dd12): deeper
+                    // well-formed messages are outside what it promises to read
+                    if m.max_depth() > 128 {
+                        st.count("deeper_than_the_documented_nesting_limit", 1);
+                        continue;
+                    }
+                    st.count("well_formed", 1);
+                    st.transitions += (fam.p.len() + n * (fam.u.len() + fam.v.len()) + fam.s.len()) as u64;
+                    check_accepted(&bytes, &m, st, "periodic");
+                    st.sample(1, || json!({"family": fam.name(), "n": n, "bytes": bytes.len()}));
+                }
+                Err(_) => st.count("not_well_formed", 1),
+            }
+        }
+    });
+    let mut s = Stats::new();
+    for p in parts {
+        s.merge(p);
+    }
+    rep.section("long-periodic-messages", s);
+
+    // (v) non-initial states: reach a state by n repetitions of u, then run EVERY short continuation
+    let us = tok_words(1, 2);
+    let probes: Vec<Vec<usize>> = (0..tok_space(3)).map(tok_seq).collect();
+    let ns: &[usize] = ctx.tier.pick(&[130, 300][..], &[40, 130, 300, 1000][..]);
+    let prefixes: Vec<Vec<usize>> = if ctx.tier == Tier::Thorough { tok_words(0, 1) } else { vec![vec![]] };
+    let mut jobs: Vec<(usize, usize, usize)> = vec![];
+    for pi in 0..prefixes.len() {
+        for ui in 0..us.len() {
+            for ni in 0..ns.len() {
+                jobs.push((pi, ui, ni));
+            }
+        }
+    }
+    let parts = vmc::explore::par_slice(ctx.threads, &jobs, Stats::new, |st, _, &(pi, ui, ni)| {
+        let fam = Periodic { p: prefixes[pi].clone(), u: us[ui].clone(), v: vec![], s: vec![] };
+        let n = ns[ni];
+        let base = fam.bytes(n);
+        // a state from which nothing can be well-formed any more (e.g. a value before any group) is skipped at once
+        let mut viable = false;
+        for probe in &probes {
+            let mut bytes = base.clone();
+            for &t in probe {
+                bytes.extend_from_slice(tok_bytes(t));
+            }
+            bytes.push(TAG_END);
+            st.evaluations += 1;
+            match r1::decode(&bytes) {
+                Ok(m) => {
+                    viable = true;
+                    if m.max_depth() > 128 {
+                        st.count("deeper_than_the_documented_nesting_limit", 1);
+                        continue;
+                    }
+                    st.count("well_formed", 1);
+                    st.transitions += (n * fam.u.len() + probe.len()) as u64;
+                    check_accepted(&bytes, &m, st, "state+continuation");
+                    st.sample(1, || json!({"state": format!("[{}] ({})^{}", tok_names(&fam.p), tok_names(&fam.u), n), "continuation": tok_names(probe)}));
+                }
+                Err(_) => {
+                    st.count("not_well_formed", 1);
+                    if !viable && probe.len() >= 2 {
+                        // no continuation of length <= 1 was well-formed and this one is not either: the state
+                        // itself is ill-formed or unclosable within 3 tokens only if longer probes fail too; keep going
+                    }
+                }
+            }
+        }
+    });
+    let mut s = Stats::new();
+    for p in parts {
+        s.merge(p);
+    }
+    rep.section("states-then-every-continuation", s);
 
     // (iii) rejection rule
     let mut reject: Vec<u8> = vec![0x00];
